@@ -100,14 +100,14 @@ def handle (op : String) (j : Json) : Option (R Json) :=
         | some p =>
           if p.zd then pure (errJ "ValueError")
           else
-            let res := if inten then insertArr p.fld out ⟨w, 0⟩ (fun z => GI.normSq z) else insertArr p.fld out ⟨w, 0⟩
+            let res := insertArrMode inten (fun z => GI.normSq z) p.fld out ⟨w, 0⟩
             pure (okJ [("out", arrToJson res), ("dropped", Json.bool false)])
       | _ => throw "field.chain: unknown step"
   | "field.insert" => some do
       let f ← fldOfJson (← j.getObjVal? "field"); let out ← arrOfJson (← j.getObjVal? "out")
       let w ← getInt j "weight"
       let inten ← getBool j "intensity"
-      let res := if inten then insertArr f out ⟨w, 0⟩ (fun z => GI.normSq z) else insertArr f out ⟨w, 0⟩
+      let res := insertArrMode inten (fun z => GI.normSq z) f out ⟨w, 0⟩
       pure (okJ [("out", arrToJson res)])
   | _ => none
 
